@@ -88,7 +88,7 @@ static void run_case(Case &c)
     for(int i = 0; i < ncalls && g_w.violations_in_case < 10; i++)
     {
         OPN2_MIDIPlayer *d = r.chance(0.03) ? NULL : dev;
-        int fn = (int)r.below(80);
+        int fn = (int)r.below(82);
         std::string argc = "-", retc = "-";
         #define RET(cond_ok, name, rcval) do { retc = vfmt("%d", (int)(rcval)); if(!(cond_ok)) c.violation(std::string("oracle:documented-return:") + (name), vfmt("%s returned %d (args %s)", (name), (int)(rcval), argc.c_str())); } while(0)
         switch(fn)
@@ -295,6 +295,23 @@ static void run_case(Case &c)
             Bytes m; switch(r.below(6)) { case 0: m.assign(gm, gm + sizeof(gm)); break; case 1: m.assign(gs, gs + sizeof(gs)); break; case 2: m.assign(xg, xg + sizeof(xg)); break; case 3: m.assign(mv, mv + sizeof(mv)); break; case 4: m.assign(dp, dp + sizeof(dp)); break; default: { int n = r.range(0, 20); for(int j = 0; j < n; j++) m.push_back(r.byte()); } }
             if(r.chance(0.4) && !m.empty()) { int k = r.below(3); size_t p = r.below((uint32_t)m.size()); if(k == 0) m[p] = r.byte(); else if(k == 1) m.resize(p); else m.insert(m.begin() + (long)p, r.byte()); }
             ExactBuf eb(m); int rc = 0; API("opn2_rt_systemExclusive", rc = opn2_rt_systemExclusive(d, eb.p, eb.n)); if(!d) RET(rc == -1, "opn2_rt_systemExclusive", rc); else RET(rc == 0 || rc == 1, "opn2_rt_systemExclusive", rc); break;
+        }
+        case 80: case 81:
+        {   // pedal phrase: a key re-struck and released under a pedal, the pedal lifted in between, then more notes than the chip has
+            // channels (stale chip-channel users only show when their channel is taken again)
+            if(!d) break;
+            uint8_t ch = (uint8_t)r.pick((const int[]){0, 1, 2, 9}), key = (uint8_t)r.range(40, 80), cc = (uint8_t)(r.chance(0.7) ? 64 : 66);
+            API("opn2_rt_controllerChange", opn2_rt_controllerChange(d, ch, cc, 127));
+            { int rc = 0; API("opn2_rt_noteOn", rc = opn2_rt_noteOn(d, ch, key, 100)); (void)rc; }
+            if(cc == 66) API("opn2_rt_controllerChange", opn2_rt_controllerChange(d, ch, 66, 127));
+            API("opn2_rt_noteOff", opn2_rt_noteOff(d, ch, key));
+            { int rc = 0; API("opn2_rt_noteOn", rc = opn2_rt_noteOn(d, ch, key, 90)); (void)rc; }
+            if(r.chance(0.8)) API("opn2_rt_controllerChange", opn2_rt_controllerChange(d, ch, cc, 0)); else API("opn2_rt_controllerChange", opn2_rt_controllerChange(d, ch, 121, 0));
+            if(r.chance(0.8)) API("opn2_rt_noteOff", opn2_rt_noteOff(d, ch, key));
+            int nk = r.range(6, 30);
+            for(int j = 0; j < nk; j++) { int rc = 0; API("opn2_rt_noteOn", rc = opn2_rt_noteOn(d, ch, (uint8_t)(30 + ((key + j * 3) % 70)), (uint8_t)r.range(1, 127))); (void)rc; }
+            if(r.chance(0.5)) { short pcm[2 * 1024]; int got = 0; API("opn2_generate", got = opn2_generate(d, 2 * 1024, pcm)); (void)got; }
+            break;
         }
         case 78: case 79:
         {   // polyphony burst: a chord of 4..14 keys (optionally a program change first, optionally a short render after it):
